@@ -472,6 +472,55 @@ func init() {
 	twos := func(x *big.Int, k int) []byte {
 		return tr(8*k, x).FillBytes(make([]byte, k))
 	}
+	register(&opDef{name: "int.conv64", weight: 4,
+		gen: func(r *vh.Rng, g *genCtx) *tcase {
+			var v int64
+			switch r.Intn(8) {
+			case 0:
+				v = 0
+			case 1:
+				v = -1
+			case 2:
+				v = 1<<63 - 1
+			case 3:
+				v = -(1<<63 - 1) - 1
+			case 4:
+				v = int64(r.Intn(1000)) - 500
+			default:
+				v = int64(r.Uint64())
+				if r.Intn(2) == 0 {
+					v >>= uint(r.Intn(63))
+				}
+			}
+			return &tcase{args: []*big.Int{big.NewInt(v)}}
+		},
+		impl: func(c *tcase) (string, string) {
+			v := c.args[0].Int64()
+			x := numct.NewInt(v)
+			var y numct.Int
+			y.SetInt64(v)
+			if v >= 0 {
+				u := numct.NewIntFromUint64(uint64(v))
+				n := numct.NewNat(uint64(v))
+				var w numct.Int
+				w.SetUint64(uint64(v))
+				if u.Big().Cmp(c.args[0]) != 0 || n.Big().Cmp(c.args[0]) != 0 || w.Big().Cmp(c.args[0]) != 0 || n.Uint64() != uint64(v) {
+					return "ok:uint64-constructors-differ", ""
+				}
+			}
+			if numct.NatZero().Big().Sign() != 0 || numct.NatOne().Big().Int64() != 1 || numct.NatTwo().Big().Int64() != 2 || numct.NatThree().Big().Int64() != 3 ||
+				numct.IntZero().Big().Sign() != 0 || numct.IntOne().Big().Int64() != 1 {
+				return "ok:constants-differ", ""
+			}
+			if y.Big().Cmp(x.Big()) != 0 {
+				return "ok:setint64-differs-from-newint", ""
+			}
+			return okz(x.Big(), new(big.Int).SetUint64(x.Uint64()), big.NewInt(x.Int64())), ""
+		},
+		orac: func(c *tcase) string {
+			v := c.args[0]
+			return okz(v, new(big.Int).And(new(big.Int).Abs(v), new(big.Int).SetUint64(^uint64(0))), v)
+		}})
 	register(&opDef{name: "int.twos", weight: 5, gen: genIUn,
 		impl: func(c *tcase) (string, string) {
 			return okBytes(mkInt(c.args[0], ai(c, 1)).TwosComplementBytesBE()), ""
